@@ -127,22 +127,36 @@ func isSupportedSQLVal(val *sqlparser.SQLVal) bool {
 // normalizeSearchableComparison brings the spellings of one and the same comparison to the form
 // <ColName> <op> <VALUE> that the code below understands: <VALUE> = <ColName> (also !=, <=>) has
 // its sides swapped, and a value written with the _binary introducer loses the introducer (the
-// value is rewritten as a binary 0x.. number anyway).
-func normalizeSearchableComparison(expr *sqlparser.ComparisonExpr) {
+// value is rewritten as a binary 0x.. number anyway). Only comparisons of a searchable or consistently
+// tokenized column are touched (isSearchColumn): every other comparison of the statement stays as
+// it was written.
+func normalizeSearchableComparison(expr *sqlparser.ComparisonExpr, isSearchColumn func(*sqlparser.ColName) bool) {
 	if _, leftIsValue := expr.Left.(*sqlparser.SQLVal); leftIsValue {
-		if _, rightIsColumn := expr.Right.(*sqlparser.ColName); rightIsColumn {
+		if rColumn, rightIsColumn := expr.Right.(*sqlparser.ColName); rightIsColumn && isSearchColumn(rColumn) {
 			switch expr.Operator {
 			case sqlparser.EqualStr, sqlparser.NotEqualStr, sqlparser.NullSafeEqualStr:
 				expr.Left, expr.Right = expr.Right, expr.Left
 			}
 		}
 	}
-	if _, leftIsColumn := expr.Left.(*sqlparser.ColName); leftIsColumn {
+	if lColumn, leftIsColumn := expr.Left.(*sqlparser.ColName); leftIsColumn && isSearchColumn(lColumn) {
 		if unary, ok := expr.Right.(*sqlparser.UnaryExpr); ok && strings.TrimSpace(unary.Operator) == "_binary" {
 			if inner, ok := unary.Expr.(*sqlparser.SQLVal); ok {
 				expr.Right = inner
 			}
 		}
+	}
+}
+
+// searchColumnPredicate tells the columns whose comparisons are rewritten: searchable or consistently tokenized
+func searchColumnPredicate(tableExpr sqlparser.TableExprs, schemaStore config.TableSchemaStore) func(*sqlparser.ColName) bool {
+	return func(column *sqlparser.ColName) bool {
+		columnInfo, err := FindColumnInfo(tableExpr, column, schemaStore)
+		if err != nil {
+			return false
+		}
+		setting := GetColumnSetting(column, columnInfo.Table, schemaStore)
+		return setting != nil && (setting.IsSearchable() || setting.IsConsistentTokenization())
 	}
 }
 
@@ -159,7 +173,7 @@ func (filter *SearchableQueryFilter) filterColumnEqualComparisonExprs(stmt sqlpa
 		if comparisonExpr.Escape != nil {
 			return true, nil
 		}
-		normalizeSearchableComparison(comparisonExpr)
+		normalizeSearchableComparison(comparisonExpr, searchColumnPredicate(tableExpr, filter.schemaStore))
 
 		lColumn, ok := comparisonExpr.Left.(*sqlparser.ColName)
 		if !ok {
@@ -254,7 +268,7 @@ func ParseSearchQueryPlaceholdersSettings(statement sqlparser.Statement, schemaS
 			}
 
 			var colName *sqlparser.ColName
-			normalizeSearchableComparison(comparisonExpr)
+			normalizeSearchableComparison(comparisonExpr, searchColumnPredicate(tableExps, schemaStore))
 
 			switch expr := comparisonExpr.Left.(type) {
 			case *sqlparser.ColName:
